@@ -1,6 +1,7 @@
 import QM.ConvShape
 import QM.ConvFrame
 import QM.ConvKeys
+import QM.ConvGrows
 /-! # C07 — user sections pass through unchanged; the Quadlet section is kept as X-<name>
 
 Statements are about the ordered-multimap model of the unit (`MM.entriesOf svc S` = the entries of section `S`
@@ -166,5 +167,45 @@ theorem C07_managed_conforms : (∀ p ∈ Gen.writtenPairs, p ∈ managed) ∧ (
 /-- non-vacuity: `Restart=` … no: `TimeoutStartSec`, `Description`, `Documentation`, `ExecReload`, `User` are not managed -/
 example : (s "Service", s "TimeoutStartSec") ∉ managed ∧ (s "Unit", s "Description") ∉ managed ∧ (s "Unit", s "Documentation") ∉ managed
     ∧ (s "Service", s "ExecReload") ∉ managed ∧ (s "Install", s "WantedBy") ∉ managed := by decide
+
+
+/-! ### managed keys: the user's entries are kept, the generator only adds
+
+Apart from the five settings written with `set` (`Cv.setPairs`: KillMode, Type, NotifyAccess, SyslogIdentifier,
+RemainAfterExit — there the generator replaces the *last* value, see `C07_oneshot_keeps_user_choice`,
+`C07_killmode_kept`), the entries of every key in every section only grow: the user's entries of a key are a sublist
+— same raw values, same order — of the service's entries of that key (`After=`, `Requires=`, `Environment=`,
+`ExecStartPre=`, `ExecStart=`, `WorkingDirectory=` … included). -/
+
+def UserEntriesKept (u svc : SUnit) (own xown : Str) : Prop :=
+  ∀ S k, (S, k) ∉ setPairs → S ∉ [own, xown, s "Quadlet", s "X-Quadlet"] → (keyEntries u S k).Sublist (keyEntries svc S k)
+
+theorem C07_volume_grows (E : Env) (path : Str) (u svc : SUnit) (n : Str) (hnd : (u.map Prod.fst).Nodup)
+    (h : fromVolume E path u = .ok (svc, n)) : UserEntriesKept u svc (s "Volume") (s "X-Volume") :=
+  fun S k hk hS => grows_of (startService path u) u svc _ _ (by decide) (grows_startService path u hnd)
+    (grows_fromVolume E path u svc n h) S k hk hS
+theorem C07_network_grows (E : Env) (path : Str) (u svc : SUnit) (n : Str) (hnd : (u.map Prod.fst).Nodup)
+    (h : fromNetwork E path u = .ok (svc, n)) : UserEntriesKept u svc (s "Network") (s "X-Network") :=
+  fun S k hk hS => grows_of (startService path u) u svc _ _ (by decide) (grows_startService path u hnd)
+    (grows_fromNetwork E path u svc n h) S k hk hS
+theorem C07_pod_grows (E : Env) (path : Str) (u svc : SUnit) (cs : List Str) (hnd : (u.map Prod.fst).Nodup)
+    (h : fromPod E path u cs = .ok svc) : UserEntriesKept u svc (s "Pod") (s "X-Pod") :=
+  fun S k hk hS => grows_of (startService path u) u svc _ _ (by decide) (grows_startService path u hnd)
+    (grows_fromPod E path u svc cs h) S k hk hS
+theorem C07_kube_grows (E : Env) (path : Str) (u svc : SUnit) (hnd : (u.map Prod.fst).Nodup)
+    (h : fromKube E path u = .ok svc) : UserEntriesKept u svc (s "Kube") (s "X-Kube") :=
+  fun S k hk hS => grows_of (startService path u) u svc _ _ (by decide) (grows_startService path u hnd)
+    (grows_fromKube E path u svc h) S k hk hS
+theorem C07_build_grows (E : Env) (path : Str) (u svc : SUnit) (hnd : (u.map Prod.fst).Nodup)
+    (h : fromBuild E path u = .ok svc) : UserEntriesKept u svc (s "Build") (s "X-Build") :=
+  fun S k hk hS => grows_of (buildStart path u) u svc _ _ (by decide) (grows_buildStart path u hnd)
+    (grows_fromBuild E path u svc h) S k hk hS
+theorem C07_container_grows (E : Env) (path : Str) (u svc : SUnit) (link : Option (Str × Str)) (hnd : (u.map Prod.fst).Nodup)
+    (h : fromContainer E path u = some (.ok (svc, link))) : UserEntriesKept u svc (s "Container") (s "X-Container") :=
+  fun S k hk hS => grows_of (startService path u) u svc _ _ (by decide) (grows_startService path u hnd)
+    (grows_fromContainer E path u svc link h) S k hk hS
+
+/-- the settings written with `set` are among the managed pairs (T1-conformant list) -/
+example : ∀ p ∈ setPairs, p ∈ managed := by decide
 
 end Cv
